@@ -194,23 +194,29 @@ var errC07Close = errors.New("verif: the destination cannot be closed")
 
 func (s *c07FailingSink) Close() error { return errC07Close }
 
-// c07Disturb uses an encoder the way a caller with a failing destination does:
-// Close fails, and Close is called again (explicitly and deferred, or as a
-// retry).  Whatever that leaves behind must not reach later encoders.
-func c07Disturb(c *kit.Case, f pdf.Filter, v pdf.Version, rg *kit.Rand) {
-	w, err := f.Encode(v, &c07FailingSink{})
-	if err != nil {
-		return
+// c07Disturb uses an encoder the way a caller with a failing destination (or
+// with an explicit and a deferred Close) does: Close is called again.  The
+// encoder is returned so that the caller can close it once more while later
+// encoders are alive.  Whatever that does must not reach those.
+func c07Disturb(c *kit.Case, f pdf.Filter, v pdf.Version, rg *kit.Rand) io.Closer {
+	var sink io.WriteCloser = &c07FailingSink{}
+	if rg.Bool() {
+		sink = &c06Sink{}
 	}
-	w.Write(rg.Bytes(rg.Intn(100)))
+	w, err := f.Encode(v, sink)
+	if err != nil {
+		return nil
+	}
+	w.Write(rg.Bytes(rg.Intn(100))) // (also partial rows: this output is not looked at)
 	for i := 1 + rg.Intn(3); i > 0; i-- {
 		w.Close()
 	}
-	c.Inc("encoders_closed_repeatedly_over_a_failing_destination")
+	c.Inc("encoders_closed_repeatedly")
+	return w
 }
 
 // c07EncodeTwo runs two encoders of the same filter side by side.
-func c07EncodeTwo(f pdf.Filter, v pdf.Version, d1, d2 []byte, wsize int, rg *kit.Rand) ([]byte, []byte, error) {
+func c07EncodeTwo(f pdf.Filter, v pdf.Version, d1, d2 []byte, wsize int, rg *kit.Rand, late io.Closer) ([]byte, []byte, error) {
 	s1, s2 := &c06Sink{}, &c06Sink{}
 	w1, err := f.Encode(v, s1)
 	if err != nil {
@@ -219,6 +225,9 @@ func c07EncodeTwo(f pdf.Filter, v pdf.Version, d1, d2 []byte, wsize int, rg *kit
 	w2, err := f.Encode(v, s2)
 	if err != nil {
 		return nil, nil, &c06Refused{err}
+	}
+	if late != nil {
+		late.Close() // the deferred Close of an encoder that was closed long ago
 	}
 	h := len(d1) / 2
 	for _, step := range []func() error{
@@ -236,14 +245,15 @@ func c07EncodeTwo(f pdf.Filter, v pdf.Version, d1, d2 []byte, wsize int, rg *kit
 
 func c07LibToIndep(c *kit.Case, rg *kit.Rand, p c07Pred, v pdf.Version, data []byte, wsize int) {
 	f := p.libFilter()
-	if rg.Chance(1, 16) {
-		c07Disturb(c, f, v, rg)
+	var late io.Closer
+	if rg.Chance(1, 12) {
+		late = c07Disturb(c, f, v, rg)
 	}
-	if rg.Chance(1, 8) {
+	if late != nil || rg.Chance(1, 8) {
 		// two encoders alive at the same time: each output stands for its own input
 		d2 := bytes.Clone(data)
 		slices.Reverse(d2)
-		e1, e2, err := c07EncodeTwo(f, v, data, d2, wsize, rg)
+		e1, e2, err := c07EncodeTwo(f, v, data, d2, wsize, rg, late)
 		if err != nil {
 			c.Violationf(p.label()+"/lib-to-indep/side-by-side/encode-error", "%s version %v input %s: %v", p, v, c06Hex(data), err)
 			return
